@@ -113,3 +113,55 @@ theorem mapsConsistent_of_vm (s : VM) : MapsConsistent s.ixs.ix := by
   rw [s.ixs.h]; exact mapsConsistent_replayR _
 
 end NemoVerif.CoreVM
+
+/-! ### worklist facts (pieces of the T2 invariant) -/
+namespace NemoVerif.CoreVM
+open NemoVerif NemoVerif.CoreIndex
+
+/-- every head handed back by `_advance_head_front` is, in the resulting state, a head that still exists and is not INACTIVE
+    (the final filter of the Python function) -/
+theorem advanceHeadFront_returns_live (fuel : Nat) (heads : List Key) (s s' : VM) (r : List Key)
+    (h : advanceHeadFront fuel heads s = .ok r s') :
+    ∀ k ∈ r, ∃ hd, (findInst s'.ixs.ix k.1).bind (·.findHead k.2) = some hd ∧ hd.status ≠ .inactive := by
+  cases fuel with
+  | zero => simp [advanceHeadFront, throw, throwThe, MonadExceptOf.throw, EStateM.throw] at h
+  | succ fuel =>
+    unfold advanceHeadFront at h
+    simp only [bind] at h
+    obtain ⟨acts, s1, _, h2⟩ := bind_ok h
+    simp only [getIx, get, getThe, MonadStateOf.get, EStateM.get, EStateM.bind, bind, pure, EStateM.pure] at h2
+    cases h2
+    intro k hk
+    simp only [List.mem_filter] at hk
+    obtain ⟨_, hk2⟩ := hk
+    split at hk2
+    · rename_i hd hf
+      exact ⟨hd, hf, by simpa using hk2⟩
+    · cases hk2
+
+end NemoVerif.CoreVM
+
+namespace NemoVerif.CoreVM
+open NemoVerif NemoVerif.CoreIndex
+
+/-- every head handed back by the merging loop is ACTIVE in the resulting state (MERGING heads have been advanced) -/
+theorem mergeLoop_returns_active : ∀ (fuel : Nat) (acts : List Key) (s s' : VM) (r : List Key),
+    mergeLoop fuel acts s = .ok r s' → ∀ k ∈ r, headStatusOf s'.ixs.ix k = some .active
+  | 0, acts, s, s', r, h => by simp [mergeLoop, throw, throwThe, MonadExceptOf.throw, EStateM.throw] at h
+  | fuel + 1, acts, s, s', r, h => by
+    unfold mergeLoop at h
+    simp only [bind] at h
+    obtain ⟨a, s1, _, h2⟩ := bind_ok h
+    simp only [get, getThe, MonadStateOf.get, EStateM.get, EStateM.bind] at h2
+    split at h2
+    · simp [unsupported, throw, throwThe, MonadExceptOf.throw, EStateM.throw] at h2
+    · split at h2
+      · simp only [pure, EStateM.pure] at h2
+        cases h2
+        intro k hk
+        simp only [List.mem_filter, decide_eq_true_eq] at hk
+        exact hk.2
+      · obtain ⟨more, s2, _, h3⟩ := bind_ok h2
+        exact mergeLoop_returns_active fuel _ s2 s' r h3
+
+end NemoVerif.CoreVM
